@@ -66,6 +66,8 @@ package verifspec
 //@ property C07
 //@   prune
 //@   param dst: arr, src: arr, dstOffset: nat, srcOffset: nat, n: nat, elem: elemtype
+//@   returns undef
+//@   assigns arr(dst)
 //@   requires elem.kind != 17 && elem.kind != 25
 //@   requires dstOffset + n <= len(dst) && srcOffset + n <= len(src)
 //@   requires isplain(dst) == isplain(src)
@@ -81,3 +83,39 @@ package verifspec
 //@   loop 4 decreases n - i
 //@   ensures forall(k, 0, n, dst[dstOffset + k] == old(src[srcOffset + k]))
 //@   ensures forall(k, 0, len(dst), (k < dstOffset || k >= dstOffset + n) ==> dst[k] == old(dst[k]))
+
+// Go's copy(dst, src) on slices: min(len(dst), len(src)) elements, memmove semantics, returns the count.
+//@ js prelude.js $copySlice
+//@ property C07
+//@   prune
+//@   param dst: slice, src: slice
+//@   requires dst.$elemtype.kind != 17 && dst.$elemtype.kind != 25 && isplain(dst.$array) == isplain(src.$array)
+//@   requires sameobj(dst.$array, src.$array) ==> len(dst.$array) == len(src.$array)
+//@   returns nat
+//@   ensures result == min(dst.$length, src.$length)
+//@   ensures forall(k, 0, result, dst.$array[dst.$offset + k] == old(src.$array[src.$offset + k]))
+//@   ensures forall(k, 0, len(dst.$array), (k < dst.$offset || k >= dst.$offset + result) ==> dst.$array[k] == old(dst.$array[k]))
+
+// copy(dst, string): the first min(len) bytes of the string.
+//@ js prelude.js $copyString
+//@ property C07 C14
+//@   param dst: slice, src: str
+//@   returns nat
+//@   loop 1 invariant 0 <= i && i <= n && n == min(len(src), dst.$length)
+//@   loop 1 invariant forall(k, 0, i, dst.$array[dst.$offset + k] == src[k])
+//@   loop 1 invariant forall(k, 0, len(dst.$array), (k < dst.$offset || k >= dst.$offset + i) ==> dst.$array[k] == old(dst.$array[k]))
+//@   loop 1 decreases n - i
+//@   ensures result == min(len(src), dst.$length)
+//@   ensures forall(k, 0, result, dst.$array[dst.$offset + k] == src[k])
+//@   ensures forall(k, 0, len(dst.$array), (k < dst.$offset || k >= dst.$offset + result) ==> dst.$array[k] == old(dst.$array[k]))
+
+// []byte(s): a new array holding exactly the bytes of the string.
+//@ js prelude.js $stringToBytes
+//@ property C14
+//@   param str: str
+//@   returns u8arr
+//@   loop 1 invariant 0 <= i && i <= len(str) && len(array) == len(str)
+//@   loop 1 invariant forall(k, 0, i, array[k] == str[k])
+//@   loop 1 decreases len(str) - i
+//@   ensures len(result) == len(str) && freshobj(result)
+//@   ensures forall(k, 0, len(str), result[k] == str[k])
